@@ -46,6 +46,42 @@ PANIC_REASONS = {
 }
 
 
+# every compiler-inserted run-time check (index bounds, division, arithmetic overflow in debug builds) and every
+# value-partial std call of the builder, by function and kind
+ARITH_REASONS = {
+    "cover::compute_epoch_info|div": "divisors: segment_size >= 16 (C20.dom.risky), num_epochs = max(1, _), epoch_size = min(10000, num_kmers) with num_kmers = source_size / 16 >= 1",
+    "cover::compute_epoch_info|overflow:Mul": "arith: floor(n / e) * e <= n (inside the assert)",
+    "cover::score_segment|overflow:Add": "arith: at most 2048 k-mers per segment, each scored at most the sample length",
+    "cover::pick_best_segment|partial:chunks": "guarded: segment_size = min(2048, source_size) with source_size >= 16 (C20.dom.risky segment_size)",
+    "dictionary::create_raw_dict_from_dir|overflow:Add": "env: sum of the file sizes below one directory in u64",
+    "dictionary::create_raw_dict_from_source|div": "divisors (source_size >= 16 on this path): segment_size >= 16; num_segments >= 1 as segment_size <= source_size; "
+                                                  "min(source_size / (2 * num_segments), 256) >= segment_size / 2 >= 8; the k-mer length 16 twice; epoch_size >= 1 (compute_epoch_info)",
+    "dictionary::create_raw_dict_from_source|overflow:Add": "arith: one per epoch read",
+    "dictionary::create_raw_dict_from_source|overflow:Mul": "arith: 2 * num_segments <= source_size / 8",
+    "dictionary::create_raw_dict_from_source|overflow:Sub": "arith: total_size is the sum of the lengths of the segments still in the pool",
+    "frequency::estimate_frequency|index": "guarded: i < pattern.len() <= body.len() (assert); i <= body.len() - pattern.len(); i + pattern.len() < body.len() under the if",
+    "frequency::estimate_frequency|overflow:Add": "arith (64-bit isize): every intermediate value is below 256 * 256 * PRIME < 2^50",
+    "frequency::estimate_frequency|overflow:Mul": "arith (64-bit isize): every intermediate value is below 256 * 256 * PRIME < 2^50",
+    "frequency::estimate_frequency|overflow:Sub": "arith: body.len() >= pattern.len() (assert); hashes below 2^50 in isize",
+    "frequency::estimate_frequency|overflow:Rem": "total: isize % PRIME overflows only for a divisor of -1",
+    "frequency::estimate_frequency|rem": "total: PRIME is a non-zero constant",
+    "Reservoir::fill|div": "guarded: k = 16 (Reservoir::new is only called with K)",
+    "Reservoir::fill|overflow:Add": "arith: byte and position counters of one source; `floor() as usize + 1` saturates only if fastrand::f64() returns exactly 0.0 "
+                                    "(ln = -inf; probability 2^-53 per draw) — noted in DESIGN 13.5, not reachable by choice of input",
+    "Reservoir::fill|overflow:Mul": "arith: (skip + 1) * 16 with skip bounded as above",
+    "Reservoir::fill|partial:chunks_mut": "guarded: k = 16",
+}
+
+
+def _arith_sites(ctx, fns):
+    crate = ctx.crate()
+    mfns = {p for p in crate.mir if any(p == f or p.startswith(f + "::{closure") for f in fns)}
+    out = INV.assert_sites(crate, mfns) + INV.partial_calls(crate, set(fns))
+    for x in out:
+        x["fn"] = H.short(x["fn"].split("::{closure")[0])
+    return out
+
+
 def _builder_fns(ctx):
     crate = ctx.crate()
     reach = flow.reachable_fns(crate, [SRC, DM + "::create_raw_dict_from_dir"])
@@ -75,6 +111,11 @@ def freeze(ctx, cfgs):
         if k not in PANIC_REASONS and not k.endswith("|debug_assert"):
             raise SystemExit("no reviewed reason for panic group %s" % k)
         out["panics"][k] = {"count": n, "reason": PANIC_REASONS.get(k, "debug-only")}
+    out["arith"] = {}
+    for k, n in INV.count_by(_arith_sites(ctx, fns), "fn", "kind").items():
+        if k not in ARITH_REASONS:
+            raise SystemExit("no reviewed reason for run-time check group %s" % k)
+        out["arith"][k] = {"count": n, "reason": ARITH_REASONS[k]}
     return out
 
 
@@ -370,6 +411,11 @@ def run(ctx):
             x["fn"] = H.short(x["fn"])
         INV.compare_counts(ctx, RT + ".inventory.panics", "explicit panic construct(s) in the dictionary builder", ps, T["panics"], ("fn", "kind"))
         ctx.floor(RT + ".inventory.panics", len(ps), 9, "explicit panic constructs found")
+        # functions added since the review: their run-time checks count at the reviewed callers (MIR level)
+        ar = INV.reattribute(_arith_sites(ctx, fns), {H.short(f): [H.short(o) for o in os_] for f, os_ in own.items()})
+        INV.compare_counts(ctx, RT + ".inventory.arith", "compiler-inserted run-time check(s) / value-partial std call(s) in the dictionary builder",
+                           ar, T.get("arith", {}), ("fn", "kind"))
+        ctx.floor(RT + ".inventory.arith", len(ar), 40, "run-time check sites found")
         # the fill loop: end of input must make the exit test true
         fb = ctx.hir(DM + "::reservoir::Reservoir::fill")
         fix = hq.Index(fb)
